@@ -550,6 +550,39 @@ def _execute(sc, store):
                 canon_by_state[ck] = (can, names_add)
             continue
 
+        if op == "probe":
+            importers_ = {m: [x for x in range(nm) if m in mods[x]["imports"]] for m in range(nm)}
+            roots_ = [m for m in range(nm) if not importers_[m]]
+            lk = LinearIR.Linker(loader=LinearIR.FilesystemModuleLoader())
+            if st["kind"] == "relink":
+                try:
+                    for m in roots_:
+                        lk.AddModule(load_file(m))
+                    guarded_link(lk)
+                    guarded_link(lk)
+                    bump("probe_relink_second_link_returns")
+                except StepBudgetExceeded:
+                    bump("probe_relink_no_progress")
+                except Exception as e:
+                    bump("probe_relink_raises_" + type(e).__name__)
+            else:
+                need_ = sorted(set(range(nm)) - set(roots_))
+                if need_:
+                    v_ = need_[st["victim"] % len(need_)]
+                    os.rename(file_of(v_), file_of(v_) + ".hidden")
+                    try:
+                        for m in roots_:
+                            lk.AddModule(load_file(m))
+                        guarded_link(lk)
+                        bump("probe_missing_module_link_returns")
+                    except StepBudgetExceeded:
+                        bump("probe_missing_module_no_progress")
+                    except Exception as e:
+                        bump("probe_missing_module_raises_" + type(e).__name__)
+                    finally:
+                        os.rename(file_of(v_) + ".hidden", file_of(v_))
+            log.add("probe", what=st["kind"])
+            continue
         if op == "dup":
             r = _dup_step(sc, st, LinearIR, make_loader, host_module, guarded_link, CountingLoader, log, bump, nm)
             if r is not None:
